@@ -295,3 +295,129 @@ Theorem C12_history_empty_rejects : forall O d f retry o ob,
   validate_commit (cfg_of_home O d f []) retry o ob = false.
 Proof. exact empty_cfg_rejects_commit. Qed.
 Print Assumptions C12_history_empty_rejects.
+
+Require Import Verif.Check.C12_check Verif.Proofs.JudgeSoundRolesHistP Verif.Proofs.JudgeSoundC12P.
+(* ---- the executable properties of Check/C12_check.v are the property (judge soundness) ---- *)
+
+(* commit sink: the model's own verdict passes the executable property, for every input (the commit sink has no recorded class) *)
+Theorem C12_judge_cv_model_passes : forall i, cv_ok i (cv_model i) = true.
+Proof. exact cv_model_passes. Qed.
+Print Assumptions C12_judge_cv_model_passes.
+
+(* commit sink: a verdict v of the implementation that passes is "accepted" IFF observer known, destination configured,
+   observation well-formed and EVERY field about a chain the observer is designated for — i.e. exactly the verdict of
+   C12_commit_verdict (ob' = the observation as the plugin sees it: without discovery processor the discovery part is absent) *)
+Theorem C12_judge_cv_sound : forall g c retry o ob v,
+  cv_ok (g, c, retry, o, ob) v = true ->
+  let ob' := strip_cd (cctx_disc c) ob in
+  (v = true <->
+   (known_oracle g o = true /\ dest_configured g = true /\ wf_commit retry ob' = true /\
+    forall cl ch, In (cl, ch) (cfields g ob') -> designated g o ch = true)) /\
+  v = known_oracle g o && dest_configured g && wf_commit retry ob' && forallb (field_pass g o) (cfields g ob').
+Proof. exact cv_sound. Qed.
+Print Assumptions C12_judge_cv_sound.
+
+(* hence every reject theorem above holds of a passing verdict; the representative one *)
+Theorem C12_judge_cv_sound_reject_merkle_roots : forall g c retry o ob v ch,
+  cv_ok (g, c, retry, o, ob) v = true ->
+  In ch (m_roots (co_m ob)) -> designated g o ch = false -> v = false.
+Proof. exact cv_sound_reject_merkle_roots. Qed.
+Print Assumptions C12_judge_cv_sound_reject_merkle_roots.
+
+(* execute sink: the model's verdict passes outside the recorded class (F07: commit reports from a non-designated observer) *)
+Theorem C12_judge_ev_model_passes : forall i, ev_known i = 0%N -> ev_ok i (ev_model i) = true.
+Proof. exact ev_model_passes. Qed.
+Print Assumptions C12_judge_ev_model_passes.
+
+(* execute sink: a passing verdict is "accepted" IFF observer known, well-formed, configured chains only and EVERY field
+   (commit reports included: the full-strength statement) about a designated chain; outside the recorded class it is
+   exactly the verdict of C12_exec_verdict, inside it "rejected" (what the code does not do: the recorded finding) *)
+Theorem C12_judge_ev_sound : forall g c o ob v,
+  ev_ok (g, c, o, ob) v = true ->
+  let ob' := strip_ed (ectx_disc c) ob in
+  (v = true <->
+   (known_oracle g o = true /\ wf_exec ob' = true /\ chains_known g ob' = true /\
+    forall cl ch, In (cl, ch) (efields g ob') -> designated g o ch = true)) /\
+  (ev_known (g, c, o, ob) = 0%N ->
+   v = known_oracle g o && wf_exec ob' && forallb (field_pass g o) (efields g ob') && chains_known g ob') /\
+  (ev_known (g, c, o, ob) <> 0%N -> v = false).
+Proof. exact ev_sound. Qed.
+Print Assumptions C12_judge_ev_sound.
+
+Theorem C12_judge_ev_sound_reject_messages : forall g c o ob v ch n,
+  ev_ok (g, c, o, ob) v = true ->
+  In (ch, n) (e_msgs ob) -> n <> 0%N -> designated g o ch = false -> v = false.
+Proof. exact ev_sound_reject_messages. Qed.
+Print Assumptions C12_judge_ev_sound_reject_messages.
+
+(* history sinks: the same on the configuration of the most recent successful poll [hctx_spec h]; the model (role map
+   read off the poller's state machine) passes when every scripted poll is one page below the page size *)
+Theorem C12_judge_cvh_model_passes : forall x,
+  Forall short_poll (hctx_polls (fst x)) -> cvh_ok x (cvh_model x) = true.
+Proof. exact cvh_model_passes. Qed.
+Print Assumptions C12_judge_cvh_model_passes.
+
+Theorem C12_judge_cvh_sound : forall h c retry o ob v,
+  cvh_ok (h, (c, retry, o, ob)) v = true ->
+  let g := hctx_spec h in
+  let ob' := strip_cd (cctx_disc c) ob in
+  (v = true <->
+   (known_oracle g o = true /\ dest_configured g = true /\ wf_commit retry ob' = true /\
+    forall cl ch, In (cl, ch) (cfields g ob') -> designated g o ch = true)) /\
+  v = known_oracle g o && dest_configured g && wf_commit retry ob' && forallb (field_pass g o) (cfields g ob') /\
+  (Forall short_poll (hctx_polls h) -> v = cvh_model (h, (c, retry, o, ob))).
+Proof. exact cvh_sound. Qed.
+Print Assumptions C12_judge_cvh_sound.
+
+Theorem C12_judge_evh_model_passes : forall x,
+  Forall short_poll (hctx_polls (fst x)) -> evh_known x = 0%N -> evh_ok x (evh_model x) = true.
+Proof. exact evh_model_passes. Qed.
+Print Assumptions C12_judge_evh_model_passes.
+
+Theorem C12_judge_evh_sound : forall h c o ob v,
+  evh_ok (h, (c, o, ob)) v = true ->
+  let g := hctx_spec h in
+  let ob' := strip_ed (ectx_disc c) ob in
+  (v = true <->
+   (known_oracle g o = true /\ wf_exec ob' = true /\ chains_known g ob' = true /\
+    forall cl ch, In (cl, ch) (efields g ob') -> designated g o ch = true)) /\
+  (evh_known (h, (c, o, ob)) = 0%N ->
+   v = known_oracle g o && wf_exec ob' && forallb (field_pass g o) (efields g ob') && chains_known g ob') /\
+  (evh_known (h, (c, o, ob)) <> 0%N -> v = false).
+Proof. exact evh_sound. Qed.
+Print Assumptions C12_judge_evh_sound.
+
+(* the verdict the history judges model is the verdict of the round that follows the scripted poller events in the
+   system [hrun] of C12_history_commit_verdict / C12_history_exec_verdict *)
+Theorem C12_judge_cvh_model_is_history : forall os d f polls c retry o ob,
+  let ob' := strip_cd (cctx_disc c) ob in
+  nth_error (hrun os d f (hist_hevs polls ++ [HValC retry o ob'])) (length (hist_hevs polls)) =
+  Some (Some (OVerdict (cvh_model ((os, d, f, polls), (c, retry, o, ob))))).
+Proof. exact cvh_model_is_history. Qed.
+Print Assumptions C12_judge_cvh_model_is_history.
+
+Theorem C12_judge_evh_model_is_history : forall os d f polls c o ob,
+  let ob' := strip_ed (ectx_disc c) ob in
+  nth_error (hrun os d f (hist_hevs polls ++ [HValE o ob'])) (length (hist_hevs polls)) =
+  Some (Some (OVerdict (evh_model ((os, d, f, polls), (c, o, ob))))).
+Proof. exact evh_model_is_history. Qed.
+Print Assumptions C12_judge_evh_model_is_history.
+
+(* API sinks (judge shared with C11, Check/RolesHist_check.v): the answer the model reads off the poller's state machine
+   after the scripted polls passes — it IS the Roles accessor on the most recent successful poll (list for list) *)
+Theorem C12_judge_api_model_passes : forall x,
+  Forall short_poll (hctx_polls (fst x)) -> api_ok x (api_cmodel x) = true.
+Proof. exact api_model_passes. Qed.
+Print Assumptions C12_judge_api_model_passes.
+
+(* an answer that passes is the Roles accessor of C12_history_role_map evaluated on [hctx_spec]: the configuration of
+   the most recent successful poll, nothing else of the history *)
+Theorem C12_judge_api_sound : forall x a, api_ok x a = true -> a = api_spec (hctx_spec (fst x)) (snd x).
+Proof. exact api_sound. Qed.
+Print Assumptions C12_judge_api_sound.
+
+(* in the vocabulary of C12_history_role_map: the per-peer chain set answered is exactly the chains the peer reads *)
+Theorem C12_judge_api_sound_supported : forall h p l, api_ok (h, QSupported p) (ASet l) = true ->
+  forall ch, memN ch l = reads (hctx_spec h) p ch.
+Proof. exact api_sound_supported. Qed.
+Print Assumptions C12_judge_api_sound_supported.
